@@ -235,6 +235,21 @@ def witness_search(tier, seed):
                 if got != exp:
                     return dict(config=[skind, ver, ckind, which, state],
                                 detail=f"TimingData took bpms={td.bpms} stops={td.stops} delays={td.delays} warps={td.warps} offset={td.offset}, expected everything from the {'chart' if expect_chart else 'simfile'}")
+    # the same chart object asked again after its timing properties changed
+    sf = SSCSimfile.blank()
+    sf["VERSION"], sf["BPMS"], sf["OFFSET"] = "0.83", "0.000=120.000", "0.5"
+    ch = SSCChart.blank()
+    for step, (k, v, chart_is_source) in enumerate(((None, None, False), ("BPMS", "0.000=200.000", True), ("BPMS", "", False), ("STOPS", "1.000=1.000", True), ("STOPS", None, False))):
+        if k is not None:
+            if v is None:
+                ch.pop(k, None)
+            else:
+                ch[k] = v
+        td = TimingData(sf, ch)
+        src = ch if chart_is_source else sf
+        if td.bpms != BeatValues.from_str(src.get("BPMS")) or td.offset != Decimal(src.get("OFFSET") or 0):
+            return dict(config=dict(history=f"step {step}: chart {k} := {v!r}", chart=dict(ch.items()).get("BPMS")),
+                        detail=f"TimingData took bpms={td.bpms} offset={td.offset}; after this edit the {'chart' if chart_is_source else 'simfile'} is the source")
     # the displayed BPM: the source's DISPLAYBPM when present, well-formed and not ignored, else from the source's BPMS
     from simfile.timing.displaybpm import StaticDisplayBPM, RangeDisplayBPM, RandomDisplayBPM
     for bpms, fallback in (("0.000=120.000", StaticDisplayBPM(Decimal("120.000"))),
